@@ -1,3 +1,4 @@
+pub mod c14;
 pub mod c15;
 pub mod c19;
 
@@ -5,6 +6,7 @@ use crate::driver::PropDef;
 
 pub fn lookup(id: &str) -> Option<&'static PropDef> {
     match id {
+        "C14" => Some(&c14::DEF),
         "C15" => Some(&c15::DEF),
         _ => None,
     }
